@@ -3,7 +3,7 @@ Protocol command for edit/query histories of a collection (property C10):
 
   hist <G> <op>;<op>;…       ops (fields separated by ':')
      app:P  ins:i:P  rem:P  del:i  rep:P:Q  con:P:Q  exp:n  sort  copy  ccopy  swap (back to the original of the last copy)
-     q.str q.len q.getlen q.alg q.dim q.deps q.indeps q.verts q.morphs
+     q.str q.len q.getlen q.alg q.dim q.deps q.indeps q.verts q.morphs q.gen
      q.isin:X,Y  q.seldep:X,Y  q.space  q.pair  q.sub  q.find:P  q.index:P
      q.graph q.compsA q.commutants q.cgraph q.pairs        (graph queries, property C14)
 
@@ -55,6 +55,9 @@ def qOfText (t : List String) : Option Q :=
       showPSList (g.filter (fun v => !Graph.containsPS (dependentsOf c) v))))
   | ["q.verts"] => some (.classified (fun _ => none) (fun c _ => showSortedPS (verticesOf c)))
   | ["q.morphs"] => some (.classified (fun _ => none) (fun c _ => showMorphs c))
+  -- `gen_generators()` advanced a few steps: a read-only call (it classifies, compares algebra names, yields other generator
+  -- sets); only that it answers, and with which exception if the name cannot be formed, is part of the protocol
+  | ["q.gen"] => some (.classified (fun _ => none) (fun c _ => showExcept (fun _ => "advanced") (algebraOfMorphs c)))
   | ["q.isin", xs] => do
     let xs ← psList? xs
     some (.classified (fun g => if g.isEmpty then some "F" else none) (fun c g =>
